@@ -4,6 +4,7 @@ import Driver.Common
 import Driver.Sexp
 import Gvlean.Generated.Helpers
 import Gvlean.Gen.Exec
+import Gvlean.Gen.Migrate
 
 open Go Driver
 
@@ -48,6 +49,15 @@ def stepModel (line : String) : String :=
         match (readSx v).bind sxVal with
         | none => "bad-op"
         | some val => (Gen.exec (Gen.gen decl) c (some val)).render
+  | ["mig", hx] =>
+    match unhex hx with
+    | none => "bad-op"
+    | some b =>
+      match String.fromUTF8? (ByteArray.mk b.toArray) with
+      | none => "bad-op"            -- (the harness only produces valid UTF-8 sources)
+      | some src =>
+        let (o, n) := Mig.migrate src.toList
+        hexBytes (String.ofList o).toUTF8.toList ++ "\t" ++ toString n
   | _ => "bad-op"
 
 def main : IO Unit := do
